@@ -123,8 +123,8 @@ _add(PropertySpec(
              f"{MRC}:SuperReconciliationOutput._ordered_labeling_cost", f"{MRC}:SuperReconciliationOutput.cost"],
     level="exploration", standins=["ordered-solvers:optimum-vs-brute-force", "ordered-solvers:F-COHERENCE-witness", "spfs-entry:recurrence-contract-at-runtime", "gain-sets-required-sets-precedence-graph:contracts-at-runtime"],
     technique="bounded stand-in (both ordered solvers against an independent optimum over every species mapping, root order and labelling) plus "
-              "contract-based deductive verification of the callees the solver's correctness rests on (mask / segment-distance functions, ordered labelling cost); "
-              "the SPFS table contracts are not discharged",
+              "contract-based deductive verification of _make_prec_graph (the family precedence graph) and of the callees the solver's correctness rests on "
+              "(mask / segment-distance functions, ordered labelling cost); the SPFS table contracts are not discharged",
     not_decided=["Bellman contract of _compute_spfs_entry, _compute_spfs_table, _decode_spfs_table, _spfs and the two wrappers: NOT discharged, bounded stand-in only",
                  "root orders come from toposort_all (C19: bounded only)"],
 ))
@@ -134,7 +134,8 @@ _add(PropertySpec(
              f"{MRC}:ReconciliationOutput.node_event", f"{MRC}:ReconciliationOutput._cost_rec"],
     level="exploration", standins=["unordered-solvers:optimum-vs-brute-force", "unordered-solvers:F-COHERENCE-witness", "uspfs-entry:recurrence-contract-at-runtime", "gain-sets-required-sets-precedence-graph:contracts-at-runtime"],
     technique="bounded stand-in (both unordered solvers against an independent optimum over every species mapping and EVERY admissible labelling, not only the canonical ones) plus "
-              "contract-based deductive verification of the evaluator (unordered labelling cost, event model); the USPFS table contracts are not discharged",
+              "contract-based deductive verification of _compute_gain_sets and _compute_lca_sets (where each family is gained, required content of every node) and of the evaluator "
+              "(unordered labelling cost, event model); the USPFS table contracts are not discharged",
     not_decided=["recurrence contract of _compute_uspfs_entry, _compute_uspfs_table, _decode_uspfs_table, _uspfs and the wrappers: NOT discharged, bounded stand-in only",
                  "'the two canonical labellings per node lose nothing' is a theorem of the model: validated on the bounded scope only (oracle compares canonical vs all labellings)"],
 ))
